@@ -139,6 +139,7 @@ def run(tier):
             cells[name] = dict(c, route=rname)
             open(os.path.join(wd, "src", "bin", name + ".rs"), "w").write(stream_prog(stmt, c["mode"]))
     tgt = os.path.join(HARNESS, "target", "c20")
+    ensure_fresh(tgt)
     rc, out = sh(["cargo", "+nightly", "check", "--offline", "--bins", "--keep-going", "--message-format=json", "--target-dir", tgt],
                  cwd=wd, timeout=3000)
     errs = {}      # bin -> list of (code, line, message)
